@@ -1,2 +1,3 @@
 import Dalek.Props.C03.Formulas
 import Dalek.Props.C03.History
+import Dalek.Props.C03.Vector
